@@ -155,7 +155,7 @@ def check(mod, tier: str, seed: int, *, replay: str | None = None, report_as: st
                 evs = c.get("events") or []
                 if evs and not c.get("_repeated"):
                     r_ = _random.Random(len(evs) * 7919 + seed)
-                    c["events"] = evs + [dict(e) for e in r_.sample(evs, min(rep, len(evs)))]
+                    c["events"] = evs + [dict(e, again=True) for e in r_.sample(evs, min(rep, len(evs)))]
                     c["_repeated"] = True
         for k, c in enumerate(cases):
             c.setdefault("tid", k + 1)
@@ -169,6 +169,12 @@ def check(mod, tier: str, seed: int, *, replay: str | None = None, report_as: st
         write_trace(records, trace_path)
         tmod, tcfg = mod.TRACE
         verdict = validate_total(mod, pid, records, trace_path, work)
+        if any("input" in r for r in records):
+            # the generic clause InputUntouched (spec/Trace_Input.tla), judged by TLC on the same log
+            vin = tlc.validate_trace("Trace_Input", "Trace_Input.cfg", trace_path, tag=f"{pid}-input")
+            verdict["fails"] = list(verdict["fails"]) + list(vin["fails"])
+            verdict["seen"] = sorted(set(verdict.get("seen", [])) | set(vin.get("seen", [])))
+            verdict["tlc_states"] += vin["tlc_states"]; verdict["wall_s"] += vin["wall_s"]
         if replay is None:
             for f in mc_futs:
                 mc_results.append(f.result())
